@@ -353,7 +353,7 @@ template <class G, class L> struct Monitor {
     ObsCounters oc;
     LabelCounters lc;
     uint64_t callsByKind[KIND_COUNT] = {0};
-    uint64_t noopChecks = 0, rejectedSetLabel = 0, calls = 0;
+    uint64_t scalePairs = 0, longHistories = 0, bursts = 0, noopChecks = 0, rejectedSetLabel = 0, calls = 0, scaleHistories = 0, maxDegreeSeen = 0, maxEdgesSeen = 0;
     uint64_t transitions[KIND_COUNT][KIND_COUNT] = {{0}};
 
     Monitor(Reporter &R, const HistConfig &cfg, std::string cls) : R(R), cfg(cfg), cls(std::move(cls)) {}
@@ -377,6 +377,7 @@ template <class G, class L> struct Monitor {
             // C16: forced and unforced insertions, removeEdge, removeDuplicateEdges only
             wAdd = 60; wRemove = 12; wDedup = 8; wLoops = 0; wVertex = 0; wClear = 0; wSet = 0; wRec = 0; wResize = 2;
         }
+        if (cfg.prop == "C02" && !cfg.force) wDedup = 2; // "any public mutating call": on a duplicate-free graph removeDuplicateEdges denotes no change
         if (n >= maxN) wResize = 0;
         if (n == 0) { wAdd = wRemove = wVertex = wSet = wRec = 0; wResize = 60; }
         unsigned tot = wAdd + wRemove + wLoops + wVertex + wClear + wResize + wSet + wRec + wDedup;
@@ -438,6 +439,16 @@ template <class G, class L> struct Monitor {
         for (int k = 0; k < KIND_COUNT; ++k)
             if (callsByKind[k]) R.count(std::string("calls_") + kindName(k), callsByKind[k]);
         R.count("noop_exactness_checks", noopChecks);
+        R.count("long_histories_1200_to_2700_calls", longHistories);
+        longHistories = 0;
+        R.count("scale_pairs_with_four_hubs", scalePairs);
+        scalePairs = 0;
+        R.count("scale_histories_12_to_70_vertices", scaleHistories);
+        R.count("bursts_of_16_to_40_forced_copies_of_one_pair", bursts);
+        bursts = 0;
+        { uint64_t &m1 = R.counter("largest_neighbour_list_seen_max"); m1 = std::max(m1, maxDegreeSeen); }
+        { uint64_t &m2 = R.counter("most_edges_in_one_graph_max"); m2 = std::max(m2, maxEdgesSeen); }
+        scaleHistories = 0;
         R.count("rejected_setEdgeLabel_on_missing_edge", rejectedSetLabel);
         R.count("label_reads_present_edge", lc.present);
         R.count("pairs_skipped_graph_and_model_disagree_on_edge_existence", lc.structuralDisagreementSkipped);
@@ -486,9 +497,30 @@ template <class G, class L> struct Monitor {
         unsigned style = sub % 3;
         unsigned n0 = startN[(sub / 3) % 5];
         unsigned len = 8 + r.u(cfg.maxLen - 7);
-        Subject<G, L> s(n0);
+        unsigned maxN = cfg.maxN, checkEvery = 1;
         PairPicker pp;
+        bool scale = cfg.scaleEvery && sub % cfg.scaleEvery == 7;
+        if (scale) {
+            static const unsigned bigN[] = {12, 24, 40, 70};
+            n0 = bigN[(sub / cfg.scaleEvery) % 4];
+            maxN = n0 + 2;
+            len = 150 + r.u(n0 * 5);
+            checkEvery = 8;
+            style = 0;
+            pp.hub = (int)r.u(n0);
+            ++scaleHistories;
+        } else if (cfg.scaleEvery && sub % (cfg.scaleEvery * 4) == 11) {
+            // a long life of one small object: more than a thousand calls, hundreds of removals
+            len = 1200 + r.u(1500);
+            checkEvery = 16;
+            n0 = 3 + r.u(4);
+            ++longHistories;
+        }
+        Subject<G, L> s(n0);
         uint64_t stampCtr = (sub % 1000) * 1000;
+        Op prevOp, burstOp;
+        bool havePrev = false;
+        unsigned burstLeft = 0;
         R.describeCase = [&] {
             return "{\"class\": " + q(cls) + ", \"start_size\": " + std::to_string(n0) + ", \"history\": " + s.histJson() +
                    ", \"model_after\": " + q(s.m.str()) + "}";
@@ -501,7 +533,27 @@ template <class G, class L> struct Monitor {
         int prevKind = -1;
         uint64_t hh = n0;
         for (unsigned step = 0; step < len; ++step) {
-            Op op = gen(r, s, pp, style, step, len, stampCtr, cfg.maxN);
+            Op op = gen(r, s, pp, style, step, len, stampCtr, maxN);
+            // the same call twice in a row, and labels that compare equal although they were set separately
+            if (havePrev && !cfg.force && r.chance(1, 12)) op = prevOp;
+            else if ((op.kind == ADD_L || op.kind == SETLABEL || op.kind == ADDREC_L) && stampCtr > 3 && r.chance(1, 10) && !(cfg.force && op.force)) op.stamp = stampCtr - 1 - r.u(3);
+            // C16: now and then a burst of 16-40 forced copies of one pair (the label of an existing pair is kept)
+            if (cfg.force && burstLeft == 0 && (op.kind == ADD_L || op.kind == ADD_D) && op.force && r.chance(1, 25)) {
+                burstLeft = 16 + r.u(25);
+                burstOp = op;
+                ++bursts;
+            }
+            if (burstLeft > 0) {
+                op = burstOp;
+                if (s.m.has(op.i, op.j)) {
+                    uint64_t st = s.m.e[s.m.key(op.i, op.j)].stamp;
+                    op.kind = st ? ADD_L : ADD_D;
+                    op.stamp = st;
+                }
+                --burstLeft;
+            }
+            prevOp = op;
+            havePrev = true;
             std::vector<std::vector<VertexIndex>> before;
             bool noop = s.isNoop(op);
             // "changes nothing" is stated for re-adding an existing edge, removing an absent one and (C07) rejected calls;
@@ -541,10 +593,15 @@ template <class G, class L> struct Monitor {
                     return;
                 }
             }
+            if (checkEvery > 1 && step % checkEvery != 0 && step + 1 != len) continue;
             std::string e = checkAll(s, !dup);
             if (!e.empty()) {
                 R.violation(cls + "/" + kindName(op.kind) + "/" + observerOf(e), "after " + op.str() + ": " + e);
                 return;
+            }
+            if (scale) {
+                for (VertexIndex v = 0; v < s.m.n; ++v) maxDegreeSeen = std::max<uint64_t>(maxDegreeSeen, s.g.getOutNeighbours(v).size());
+                maxEdgesSeen = std::max<uint64_t>(maxEdgesSeen, s.m.e.size());
             }
             uint64_t sh = s.m.hash();
             R.states.insert(sh);
@@ -646,7 +703,70 @@ template <class G, class L> struct Monitor {
         }
         return true;
     }
+    // C06 at scale: 40-85 vertices, four hubs with 34+ neighbours each; the same edge set inserted in two orders must compare
+    // equal, and a copy that differs by a degree-preserving swap of two edges between hubs (same size, same edge count, same
+    // degree at every vertex) must compare unequal
+    void runScalePair(uint64_t sub) {
+        Rng r = caseRng(R.args.seed, hashStr(cls + "scalepair"), sub);
+        unsigned n = 40 + r.u(46);
+        std::vector<VertexIndex> perm(n);
+        for (unsigned v = 0; v < n; ++v) perm[v] = v;
+        for (size_t i = n; i > 1; --i) std::swap(perm[i - 1], perm[r.u((unsigned)i)]);
+        VertexIndex h[4] = {perm[0], perm[1], perm[2], perm[3]};
+        std::map<Edge, uint64_t> E; // canonical pair -> stamp
+        uint64_t st = 1;
+        auto add = [&](VertexIndex a, VertexIndex b) {
+            Edge k = canon(directed, a, b);
+            if (!E.count(k)) E[k] = ++st;
+        };
+        for (int t = 0; t < 4; ++t) {
+            unsigned reach = 34 + r.u(n - 38);
+            for (unsigned q = 4; q < 4 + reach && q < n; ++q) {
+                if (directed && r.chance(1, 5)) add(perm[q], h[t]);
+                else add(h[t], perm[q]);
+            }
+        }
+        for (unsigned t = 0; t < n; ++t) add(r.u(n), r.u(n));
+        // the swap: h0->h1 and h2->h3 present, h0->h3 and h2->h1 absent
+        E.erase(canon(directed, h[0], h[3]));
+        E.erase(canon(directed, h[2], h[1]));
+        add(h[0], h[1]);
+        add(h[2], h[3]);
+        std::vector<std::pair<Edge, uint64_t>> order(E.begin(), E.end());
+        auto buildIn = [&](G &g, bool shuffle) {
+            auto o = order;
+            if (shuffle)
+                for (size_t i = o.size(); i > 1; --i) std::swap(o[i - 1], o[r.u((unsigned)i)]);
+            for (auto &kv : o) {
+                VertexIndex a = kv.first.first, b = kv.first.second;
+                if (!directed && r.chance(1, 2)) std::swap(a, b);
+                g.addEdge(a, b, labelOf<L>(kv.second));
+            }
+        };
+        G A(n), B(n);
+        buildIn(A, false);
+        buildIn(B, true);
+        R.describeCase = [&] {
+            std::ostringstream o;
+            o << "{\"class\": " << q(cls) << ", \"vertices\": " << n << ", \"edges\": " << E.size() << ", \"hubs\": [" << h[0] << "," << h[1] << "," << h[2] << "," << h[3] << "]}";
+            return o.str();
+        };
+        ++scalePairs;
+        R.distinct.insert(mix64(sub, hashStr(cls + "sp")));
+        std::string ctx = "graphs on " + std::to_string(n) + " vertices with " + std::to_string(E.size()) + " edges and four hubs of 34+ neighbours";
+        if (!eqAll(A, B, true, "scale-same-edges-two-insertion-orders", ctx)) return;
+        G D(B);
+        uint64_t l01 = E[canon(directed, h[0], h[1])], l23 = E[canon(directed, h[2], h[3])];
+        D.removeEdge(h[0], h[1]);
+        D.removeEdge(h[2], h[3]);
+        D.addEdge(h[0], h[3], labelOf<L>(l01));
+        D.addEdge(h[2], h[1], labelOf<L>(l23));
+        if (!eqAll(D, A, false, "scale-degree-preserving-swap-between-hubs", ctx)) return;
+        if (!eqAll(A, D, false, "scale-degree-preserving-swap-between-hubs", ctx)) return;
+        eqAll(B, A, true, "scale-source-after-copy-mutated", ctx);
+    }
     void runPair(uint64_t sub) {
+        if (sub % 40 == 9) return runScalePair(sub);
         Rng r = caseRng(R.args.seed, hashStr(cls + "pair"), sub);
         static const unsigned startN[] = {0, 1, 2, 3, 5};
         uint64_t stampCtr = (sub % 1000) * 1000;
